@@ -279,3 +279,13 @@ func marshalSorted(e Ev) ([]byte, error) {
 	}
 	return append(out, '}'), nil
 }
+
+var newMu sync.Mutex
+
+// newInstance creates an engine instance. Creation is serialised: streamsql.New writes the process-wide default logger
+// without synchronisation, and concurrent creation of instances is not part of any property decided here.
+func newInstance(opts ...streamsql.Option) *streamsql.Streamsql {
+	newMu.Lock()
+	defer newMu.Unlock()
+	return streamsql.New(opts...)
+}
